@@ -2,9 +2,10 @@
    c02     : an encoded request (Lang/Codec.v) -> the reference interpreter's rendering:
              [0; n; c1..cn] rendered text | [1; code] error | [2] panic | [8] out of gas | [9] undecodable
    c02-mode: n c1..cn (a template name) -> [m]: the default auto-escape mode of that name, 0 none | 1 html | 2 json
+   c02-modes: an encoded C02/Modes.v program (ModesCodec.v) -> its rendering, same output format as c02
    c02-ok  : same input -> [b; d]: b = the program is in the theorem's fragment (safe_free), d = the context is plain data *)
 From Coq Require Import String.
-From MJ Require Import Common.Base Lang.Syntax Lang.Meta Lang.Interp Lang.Codec C02.Spec C02.Names.
+From MJ Require Import Common.Base Lang.Syntax Lang.Meta Lang.Interp Lang.Codec C02.Spec C02.Names C02.Modes C02.ModesCodec.
 
 Definition FUEL := 400%nat.
 
@@ -37,4 +38,4 @@ Definition run_mode (inp : list Z) : list Z :=
   end.
 
 Open Scope string_scope.
-Definition runners : list (string * (list Z -> list Z)) := [ ("c02", run); ("c02-ok", run_ok); ("c02-mode", run_mode) ].
+Definition runners : list (string * (list Z -> list Z)) := [ ("c02", run); ("c02-ok", run_ok); ("c02-mode", run_mode); ("c02-modes", run_modes_enc) ].
